@@ -282,6 +282,8 @@ class Interp:
                     raise Unmodelled('loop at line %s does not terminate on the abstract arguments' % lp.get('ln'))
         elif lp.get('kind') == 'range':
             seq = self.val(lp['range'])
+            if isinstance(seq, tuple) and seq and seq[0] in ('pterm', 'clause'):
+                seq = list(seq[1:]) if seq[0] == 'pterm' else list(seq[1])
             if not isinstance(seq, list):
                 raise Unmodelled('range loop over a non-list at line %s' % lp.get('ln'))
             for item in list(seq):
